@@ -724,6 +724,8 @@ class _ActionSubCommands(_SubParsersAction):
                 del cfg[prefix + key]
 
         if subcommand:
+            if subcommand not in action._name_parser_map:  # type: ignore[attr-defined]
+                raise NSKeyError(f'Unknown subcommand "{subcommand}" given for "{dest}".')
             subcommand_keys = [subcommand]
 
         if fail_no_subcommand:
